@@ -374,6 +374,13 @@ def rule_cs_accept(cx, rep, port):
             if grp == 0:
                 preserve_ok = True
         else:
+            # the unquoted field runs from the field start to the next delimiter *searched from the field start*: a search that
+            # starts later (e.g. behind a rejected quoted-looking prefix) skips delimiters inside that prefix
+            searches = [c for e_ in [field] + [t_ for t_, _ in q.conds] + list(q.env.values()) for c in ast.walk(e_) if isinstance(c, ast.Call) and isinstance(c.func, ast.Attribute) and c.func.attr in ('find', 'indexOf') and is_name(c.func.value, src) and c.args and is_name(c.args[0], dlm)]
+            late = [c for c in searches if cidx is not None and not (len(c.args) == 2 and is_name(c.args[1], cidx))]
+            if late:
+                rep.violated('next delimiter', q.node, 'the next delimiter is searched from `{}` instead of the start of the field: a delimiter inside a rejected quoted-looking prefix is skipped and two fields are glued together'.format(node_text(late[0].args[1], 40) if len(late[0].args) > 1 else 'the beginning of the line'))
+                return
             if has_match and rejected:
                 n_rej += 1
                 if wv is not True:
@@ -795,3 +802,31 @@ def rule_cs_writer(cx, rep, port):
         joins = [c for c in walk_no_nested(j) if isinstance(c, ast.Call) and isinstance(c.func, ast.Attribute) and c.func.attr == 'join']
         ok = any((dotted(c.func.value) == 'self.delim') or (c.args and dotted(c.args[0]) == 'self.delim') for c in joins)
         rep.decide(ok, 'delimiter join', j, 'fields are joined with the delimiter', 'fields are not joined with self.delim')
+    if port == 'py':
+        # lossy-output detection cannot be bypassed: on every path that writes a record line while the after-join check is switched
+        # on, the check ran - in write() itself or inside the join method that produced the line (path summaries of write())
+        from .. import pathsem
+        ps = pathsem.paths(wr)
+        chk = 'check_separator_in_fields_after_join'
+        join_has_check = {m_.name for m_ in ms.values() if any(isinstance(c, ast.Call) and (call_name(c) or '').endswith(chk) for c in walk_no_nested(m_)) and m_.name != 'write'}
+        if ps is None:
+            rep.undecided('separator check coverage', wr, 'write() is not summarisable as paths')
+        else:
+            bad = None
+            n_paths = 0
+            for q in ps:
+                exprs = list(q.calls) + list(q.env.values()) + [v_ for _, v_ in q.stores] + ([q.value] if q.value is not None else [])
+                calls_ = [c for e_ in exprs for c in ast.walk(e_) if isinstance(c, ast.Call)]
+                if not any((call_name(c) or '') == 'self.stream.write' for c in calls_):
+                    continue
+                n_paths += 1
+                flag_off = any((not pol) and dotted(t_) == 'self.check_separators_after_join' for t_, pol in q.conds)
+                direct = any((call_name(c) or '').endswith(chk) for c in calls_)
+                via_join = bool(join_has_check) and any((call_name(c) or '') == 'self.polymorphic_join' for c in calls_)
+                if not (flag_off or direct or via_join):
+                    bad = q
+                    break
+            if bad is not None:
+                rep.violated('separator check coverage', bad.node if bad.node is not None else wr, 'a record line can reach the stream on a path where the "separator inside a field" check is switched on but never runs (conditions: {}): lossy simple/whitespace output stays silent for such records'.format(' and '.join(('' if pol else 'not ') + node_text(t_, 40) for t_, pol in bad.conds[-3:])))
+            else:
+                rep.decide(n_paths >= 1, 'separator check coverage', wr, 'every path that writes a record line ran the separator check when it is switched on', 'no writing path found')
